@@ -10,5 +10,5 @@ CONSTANTS
   MaxOps = 8
   MaxTimeouts = 1
 VIEW PropView
-INVARIANTS Sticky PinsAreAnswered
+INVARIANTS Sticky PinsAreAnswered TxAgrees
 PROPERTIES Balanced StickyStep
